@@ -9,8 +9,7 @@ From LLGoV Require C12.Model.
 Local Open Scope Z_scope.
 
 (* integers of every width and signedness, whole range: Python sees the Go
-   value; reading it back and truncating to the width restores the pattern.
-   (This is the extended conversion; see narrow_int_unextended_refuted.) *)
+   value; reading it back and truncating to the width restores the pattern *)
 Theorem int_roundtrip_signed : forall obj (A : ops obj) (den : obj -> pyval),
   (forall b, in_range 64 b -> den (o_ll A b) = PLong (sgn 64 b)) ->
   (forall o z, den o = PLong z -> - 2 ^ 63 <= z < 2 ^ 63 -> o_as_ll A o = Some (wrap 64 z)) ->
@@ -29,12 +28,23 @@ Theorem int_roundtrip_unsigned : forall obj (A : ops obj) (den : obj -> pyval),
 Proof. intros obj A den H1 H2 w bits. exact (int_unsigned obj A den H1 H2 w bits). Qed.
 Print Assumptions int_roundtrip_unsigned.
 
-(* the unchanged tree: after the first conversion of a narrow type the extension
-   is not emitted any more (val_step_old, matched against the IR on every run);
-   a narrow signed value passed as it is does not denote the Go value *)
+(* the lowering that exists (fixed = true) is the extended one for every
+   conversion, first of its type in the build or not *)
+Theorem int_roundtrip_signed_every_conversion : forall obj (A : ops obj) (den : obj -> pyval),
+  (forall b, in_range 64 b -> den (o_ll A b) = PLong (sgn 64 b)) ->
+  (forall o z, den o = PLong z -> - 2 ^ 63 <= z < 2 ^ 63 -> o_as_ll A o = Some (wrap 64 z)) ->
+  forall first w bits, wf_w w -> in_range w bits ->
+    den (py_val_of true first A (VInt w true bits)) = PLong (sgn w bits) /\
+    exists r, o_as_ll A (py_val_of true first A (VInt w true bits)) = Some r /\ wrap w r = bits.
+Proof. intros obj A den H1 H2 first w bits. exact (int_signed_fixed obj A den H1 H2 first w bits). Qed.
+Print Assumptions int_roundtrip_signed_every_conversion.
+
+(* before the fix (fixed = false; val_step_of false is still matched against the
+   IR so that a tree without the fix is classified): a conversion that is not the
+   first of its narrow type passed the value without extension and lost the sign *)
 Theorem narrow_int_unextended_refuted : forall obj (A : ops obj) (den : obj -> pyval),
   (forall b, in_range 64 b -> den (o_ll A b) = PLong (sgn 64 b)) ->
-  exists bits, in_range 8 bits /\ den (o_ll A bits) <> PLong (sgn 8 bits).
+  exists bits, in_range 8 bits /\ den (py_val_of false false A (VInt 8 true bits)) <> PLong (sgn 8 bits).
 Proof. intros obj A den H. exact (narrow_unextended_loses_sign obj A den H). Qed.
 Print Assumptions narrow_int_unextended_refuted.
 
